@@ -2,7 +2,11 @@
 import Hub.Model.Run
 import Hub.Model.Monitors
 import Hub.Props.C01
+import Hub.Props.C11
 import Hub.Props.C13
+import Hub.Props.C14
+import Hub.Props.C15
+import Hub.Props.C03
 import Hub.Props.C13Facts
 import Hub.Props.C10
 import Hub.Props.C19
